@@ -9,7 +9,13 @@ and log-likelihood monotonicity for TF-free models.
 Tie: every iteration of every real training session is replayed one step at a time through the compiled model
 (model.step(real theta_i) vs real theta_{i+1}, all m, u, lambda, placeholders, iteration count), the deactivated
 comparisons, the starting prior and the post-training medians; an independent textbook EM + log-likelihood oracle
-decides the property on the real history.
+decides the property on the real history.  Per session the model's choice of exact-match levels (EM.levelsToReverse on all
+exact-match levels of the model - composite levels x_l = x_r AND y_l = y_r included - and the columns the rule mentions) is compared
+with the levels the real session chose, and EM.startPrior with the real starting prior (op em_misc).
+Input families: 'plain' (one column per comparison; sometimes one column in two comparisons) and 'levels' (several exact-match
+levels covering the rule's columns: composite levels above single-column levels, overlapping composites, one column in several
+comparisons); rule forms (SQL, block_on, flipped, repeated conjunct, salted, upper-case keywords, conjuncts that only mention a
+column); populate_probability_two_random_records_match_from_trained_values; a session without pairs followed by further sessions.
 """
 from __future__ import annotations
 
@@ -45,6 +51,8 @@ def gen_case(rng: random.Random, engine=None):
             "d": rng.choice(["p", "q"]) if rng.random() > 0.05 else None,
         })
     cols = rng.sample(["a", "b", "c"], rng.randint(2, 3))
+    if rng.random() < 0.12:
+        cols.insert(rng.randrange(len(cols) + 1), rng.choice(cols))  # one column used by two comparisons (different output names)
     comps = []
     for c in cols:
         cc = c02.gen_comparison(rng, c, engine)
@@ -61,12 +69,248 @@ def gen_case(rng: random.Random, engine=None):
         comps.append(cc)
     sessions = []
     for _ in range(rng.choice([1, 1, 2, 3])):
-        rule_cols = rng.choice([["d"], ["d"], ["a"], ["b"], ["a", "d"], ["c"]])
-        flags = rng.choice([(False, False, False), (False, True, False), (True, False, False), (False, False, True), (False, True, True), (True, False, True)])
-        sessions.append({"rule_cols": rule_cols, "fix_m": flags[0], "fix_u": flags[1], "fix_lambda": flags[2], "no_tf": rng.random() < 0.5})
+        rule_cols = rng.choice([["d"], ["d"], ["a"], ["b"], ["a", "d"], ["c"], ["a", "b"], ["c", "b"], ["d", "c", "a"]])
+        if not set(cols) - set(rule_cols):
+            keep = rng.choice(sorted(set(cols)))  # keep one comparison trainable
+            rule_cols = [x for x in rule_cols if x != keep]
+        sessions.append(gen_session(rng, rule_cols, comps))
     return {"engine": engine, "rows": rows, "comparisons": comps, "prior": rng.choice([0.01, 0.1, 0.3, round(rng.uniform(0.01, 0.6), 3)]),
             "sessions": sessions, "names": rng.choice(NAMESETS), "max_iter": rng.choice([25, 25, 3]), "conv": rng.choice([0.0001, 0.01]),
             "shuffle": rng.randrange(1 << 30), "tag": "random"}
+
+
+# --------------------------------------------------------------------------- level / comparison helpers
+# A comparison is {"col": primary column, "cols": [all columns it uses] (optional), "levels": [...]}.  A level works on the
+# comparison's primary column unless it names its own: {"kind": "eq", "col": "b"}; {"kind": "eqand", "cols": [...]} is the
+# composite exact-match level  x_l = x_r AND y_l = y_r ...; a null level of a comparison over several columns carries
+# {"cols": [...], "null_mode": "any" | "all"}  (some / every column has a NULL side).
+COLCODE = {"a": 0, "b": 1, "c": 2, "d": 3}
+
+
+def ccols(c):
+    return list(c.get("cols") or [c["col"]])
+
+
+def lcol(c, l):
+    return l.get("col", c["col"])
+
+
+def exact_cols(c, l):
+    """Columns of an exact-match level (col_l = col_r [AND ...]); None for any other level."""
+    if l["kind"] == "eq":
+        return [lcol(c, l)]
+    if l["kind"] == "eqand":
+        return list(l["cols"])
+    return None
+
+
+def lsql(nm, c, l):
+    if l["kind"] == "eqand":
+        parts = [f'"{nm[x]}_l" = "{nm[x]}_r"' for x in l["cols"]]
+        return " AND ".join(parts) if not l.get("parens") else " AND ".join(f"({p})" for p in parts)
+    if l["kind"] == "null" and l.get("cols"):
+        parts = [f'("{nm[x]}_l" IS NULL OR "{nm[x]}_r" IS NULL)' for x in l["cols"]]
+        return (" AND " if l.get("null_mode") == "all" else " OR ").join(parts)
+    return c02.level_sql(nm[lcol(c, l)], l)
+
+
+def lguard(c, l, x, y):
+    """SQL three-valued truth of the level's condition on the record pair: 1 true, 0 false, 2 NULL."""
+    if l["kind"] == "eqand":
+        gs = [c02.guard_values({"kind": "eq"}, x[k], y[k]) for k in l["cols"]]
+        return 0 if 0 in gs else 2 if 2 in gs else 1
+    if l["kind"] == "null" and l.get("cols"):
+        gs = [x[k] is None or y[k] is None for k in l["cols"]]
+        return int(all(gs) if l.get("null_mode") == "all" else any(gs))
+    k = lcol(c, l)
+    return c02.guard_values(l, x[k], y[k])
+
+
+def tf_col(c, l):
+    return l["tf"].get("col") or lcol(c, l)
+
+
+def tf_exact_u(c, state, l, st):
+    """u of the level a TF-adjusted level takes its u from: itself when detection is disabled, else the first exact-match level
+    on exactly the TF column."""
+    if l["tf"].get("disable_detection"):
+        return st["u"]
+    for l2, st2 in zip(c["levels"], state):
+        if exact_cols(c, l2) == [tf_col(c, l)]:
+            return st2["u"]
+    raise core.HarnessError("generator produced a TF level without an exact-match level on its column")
+
+
+def mentioned_cols(s):
+    """Columns the session's rule mentions: its equality columns and those of other conjuncts (substr prefix, cross-column key)."""
+    out = list(s["rule_cols"])
+    for e in s.get("rule_extra") or []:
+        out += [e["col"]] if e["kind"] == "substr" else [e["l"], e["r"]]
+    return out
+
+
+def extra_holds(e, x, y):
+    """Truth of a non-equality conjunct on the pair (x = record with the smaller unique_id = l)."""
+    if e["kind"] == "substr":
+        return x[e["col"]] is not None and y[e["col"]] is not None and x[e["col"]][: e["n"]] == y[e["col"]][: e["n"]]
+    return x[e["l"]] is not None and y[e["r"]] is not None and x[e["l"]] == y[e["r"]]
+
+
+def is_active(c, s):
+    return not (set(ccols(c)) & set(mentioned_cols(s)))
+
+
+def family_of(case):
+    return case.get("family", "plain")
+
+
+# --------------------------------------------------------------------------- family: overlapping exact-match levels
+def _with_probs(rng, levels):
+    nn = [l for l in levels if l["kind"] != "null"]
+    for l, m, u in zip(nn, c02.gen_probs(rng, len(nn)), c02.gen_probs(rng, len(nn))):
+        l["m"], l["u"] = m, u
+        if rng.random() < 0.05:
+            l["fix_m"] = True
+        if rng.random() < 0.05:
+            l["fix_u"] = True
+    return levels
+
+
+def gen_composite_comparison(rng, cols):
+    """One comparison over several columns: [null] + exact-match levels on subsets of `cols` (the full set first as a rule, as in
+    ForenameSurnameComparison; sometimes out of order, sometimes without the full set) + optional fuzzy level + else."""
+    cols = list(cols)
+    subsets = [list(cols)] if rng.random() < 0.85 else []
+    if len(cols) == 3:
+        for pair in ([cols[0], cols[1]], [cols[1], cols[2]], [cols[0], cols[2]]):
+            if rng.random() < 0.4:
+                subsets.append(pair)
+    singles = [[x] for x in cols if rng.random() < 0.7]
+    rng.shuffle(singles)
+    subsets += singles
+    if not subsets:
+        subsets = [[cols[0]]]
+    if rng.random() < 0.15:
+        rng.shuffle(subsets)  # a larger level below a smaller one: never observed, still an exact-match level of the model
+    levels = []
+    if rng.random() < 0.8:
+        levels.append({"kind": "null", "cols": list(cols), "null_mode": rng.choice(["any", "all", "all"])})
+    for sub in subsets:
+        if len(sub) == 1:
+            levels.append({"kind": "eq", "col": sub[0]})
+        else:
+            sub = list(sub)
+            if rng.random() < 0.3:
+                sub.reverse()
+            levels.append({"kind": "eqand", "cols": sub, **({"parens": True} if rng.random() < 0.25 else {})})
+    fz = [x for x in cols if x in ("a", "b")]
+    if fz and rng.random() < 0.35:
+        levels.append({"kind": "lev", "k": 1, "col": rng.choice(fz)})
+    levels.append({"kind": "else"})
+    _with_probs(rng, levels)
+    # TF adjustments on levels whose column has a single-column exact-match level in this comparison
+    for l in levels:
+        if l["kind"] in ("eq", "lev", "eqand") and rng.random() < 0.25:
+            cand = [x for x in (l["cols"] if l["kind"] == "eqand" else [l["col"]]) if x in ("a", "b") and any(exact_cols({"col": cols[0]}, l2) == [x] for l2 in levels)]
+            if cand:
+                l["tf"] = {"col": rng.choice(cand), "weight": rng.choice([0.3, 1.0, 0.5]), "minU": rng.choice([0.0, 0.01, 0.2])}
+    used = [x for x in cols if any(x in (l.get("cols") or [l.get("col")]) for l in levels)]  # the columns its SQL mentions
+    for l in levels:
+        if l["kind"] != "eqand" and l.get("col") is None and l["kind"] not in ("null", "else"):
+            raise core.HarnessError("level without a column in a comparison over several columns")
+    return {"col": used[0], "cols": used, "levels": levels}
+
+
+def gen_plain_comparison(rng, col, engine):
+    if col == "d":
+        levels = ([{"kind": "null"}] if rng.random() < 0.7 else []) + [{"kind": "eq"}, {"kind": "else"}]
+        return {"col": "d", "levels": _with_probs(rng, levels)}
+    cc = c02.gen_comparison(rng, col, engine)
+    for l in cc["levels"]:
+        if l.get("u") == 0.0:
+            l["u"] = 0.05
+        if "tf" in l and rng.random() < 0.6:
+            del l["tf"]
+    return cc
+
+
+FLAGS = [(False, False, False), (False, True, False), (True, False, False), (False, False, True), (False, True, True), (True, False, True)]
+RULE_FORMS = ["sql", "sql", "sql", "block_on", "block_on", "flipped", "dup", "salted", "upper"]
+
+
+def gen_session(rng, rule_cols, comps=None):
+    flags = rng.choice(FLAGS)
+    s = {"rule_cols": list(rule_cols), "fix_m": flags[0], "fix_u": flags[1], "fix_lambda": flags[2], "no_tf": rng.random() < 0.5,
+         "rule_form": rng.choice(RULE_FORMS), "populate": rng.random() < 0.3}
+    if comps and rng.random() < 0.07:
+        # a conjunct that mentions a column without stating l.col = r.col
+        e = rng.choice([{"kind": "substr", "col": rng.choice(["a", "b"]), "n": rng.choice([1, 2, 3])}, dict(zip(("kind", "l", "r"), ["cross"] + rng.sample(["a", "b"], 2)))])
+        s2 = dict(s, rule_extra=[e], rule_form="sql")
+        if e["kind"] == "substr" and e["col"] in s2["rule_cols"] and len(s2["rule_cols"]) > 1:
+            s2["rule_cols"] = [x for x in s2["rule_cols"] if x != e["col"]]
+        if any(is_active(c, s2) for c in comps):
+            s = s2
+    return s
+
+
+def gen_levels_case(rng: random.Random, engine=None):
+    """Models in which the columns of a training rule are covered by several exact-match levels: composite levels with single-
+    column levels below them, several comparisons on one column, overlapping composites; rules on all / part of / more than a
+    composite level's columns."""
+    engine = engine or rng.choice(["duckdb", "duckdb", "sqlite"])
+    n = rng.randint(10, 18)
+    null_rate = rng.choice([0.0, 0.08, 0.2])
+    doms = {"a": c02.STR_DOM[: rng.choice([2, 3])], "b": c02.STR_DOM[: rng.choice([2, 3])], "c": c02.INT_DOM[: rng.choice([2, 3, 4])], "d": ["p", "q"]}
+    rows = [dict({"unique_id": i + 1}, **{k: (None if rng.random() < (0.05 if k == "d" else null_rate) else rng.choice(doms[k])) for k in "abcd"}) for i in range(n)]
+    allc = ["a", "b", "c", "d"]
+    key = rng.sample(allc, rng.choice([2, 2, 2, 3]))         # columns carrying the overlapping exact-match levels
+    rest = [x for x in allc if x not in key]                   # columns whose comparisons stay trainable
+    shape = rng.choice(["composite", "composite", "composite+single", "same_column_twice", "overlapping_composites", "mixed"])
+    comps = []
+    if shape in ("composite", "composite+single", "mixed"):
+        comps.append(gen_composite_comparison(rng, key))
+    if shape in ("composite+single", "mixed"):
+        comps.append(gen_plain_comparison(rng, rng.choice(key), engine))
+    if shape in ("same_column_twice", "mixed"):
+        x = rng.choice(key)
+        comps += [gen_plain_comparison(rng, x, engine) for _ in range(2 if shape == "same_column_twice" else 1)]
+        if shape == "same_column_twice":
+            comps.append(gen_plain_comparison(rng, rng.choice([y for y in key if y != x]), engine))
+    if shape == "overlapping_composites":
+        k3 = key if len(key) == 3 else key + [rest.pop(rng.randrange(len(rest)))]
+        key = k3
+        comps += [gen_composite_comparison(rng, [k3[0], k3[1]]), gen_composite_comparison(rng, [k3[1], k3[2]])]
+        if rng.random() < 0.5:
+            comps.append(gen_plain_comparison(rng, k3[2], engine))
+    rng.shuffle(comps)
+    free = [gen_plain_comparison(rng, x, engine) for x in rest if rng.random() < 0.85] or [gen_plain_comparison(rng, rest[0], engine)]
+    for cc in free:
+        comps.insert(rng.randrange(len(comps) + 1), cc)
+    exact_sets = [exact_cols(c, l) for c in comps for l in c["levels"] if exact_cols(c, l) and set(exact_cols(c, l)) <= set(key)]
+    sessions = []
+    for _ in range(rng.choice([1, 1, 2, 3])):
+        kind = rng.choice(["all_key", "all_key", "level", "part", "key_plus", "single"])
+        if kind == "all_key":
+            rc = list(key)
+        elif kind == "level":
+            rc = list(rng.choice(exact_sets)) if exact_sets else list(key)
+        elif kind == "part":
+            rc = rng.sample(key, len(key) - 1)
+        elif kind == "key_plus":
+            rc = list(key) + [rng.choice(rest)]
+        else:
+            rc = [rng.choice(key)]
+        rng.shuffle(rc)
+        if not any(is_active(c, {"rule_cols": rc}) for c in comps):
+            rc = [x for x in rc if x in key]
+        sessions.append(gen_session(rng, rc, comps))
+    return {"engine": engine, "rows": rows, "comparisons": comps, "prior": rng.choice([0.01, 0.1, 0.3, round(rng.uniform(0.01, 0.6), 3)]),
+            "sessions": sessions, "names": rng.choice(NAMESETS), "max_iter": rng.choice([25, 3, 3, 1]), "conv": rng.choice([0.0001, 0.01]),
+            "shuffle": rng.randrange(1 << 30), "tag": "random", "family": "levels:" + shape}
+
+
+def gen_any(rng: random.Random):
+    return gen_levels_case(rng) if rng.random() < 0.4 else gen_case(rng)
 
 
 # --------------------------------------------------------------------------- real code
@@ -76,7 +320,7 @@ def settings_dict(case):
     for ci, c in enumerate(case["comparisons"]):
         lv = []
         for l in c["levels"]:
-            d = {"sql_condition": c02.level_sql(nm[c["col"]], l), "label_for_charts": l["kind"] + str(l.get("k", ""))}
+            d = {"sql_condition": lsql(nm, c, l), "label_for_charts": l["kind"] + str(l.get("k", "")) + "".join(exact_cols(c, l) or [])}
             if l["kind"] == "null":
                 d["is_null_level"] = True
             else:
@@ -86,7 +330,7 @@ def settings_dict(case):
                 if l.get("fix_u"):
                     d["fix_u_probability"] = True
             if "tf" in l:
-                d["tf_adjustment_column"] = nm[c["col"]]
+                d["tf_adjustment_column"] = nm[tf_col(c, l)]
                 d["tf_adjustment_weight"] = l["tf"]["weight"]
                 d["tf_minimum_u_value"] = l["tf"]["minU"]
                 if l["tf"].get("disable_detection"):
@@ -97,9 +341,32 @@ def settings_dict(case):
             "probability_two_random_records_match": case["prior"], "max_iterations": case["max_iter"], "em_convergence": case["conv"]}
 
 
-def rule_sql(case, cols):
+def rule_sql(case, cols, form="sql"):
     nm = case["names"]
-    return " and ".join(f'l."{nm[c]}" = r."{nm[c]}"' for c in cols)
+    if form == "flipped":
+        return " and ".join(f'r."{nm[c]}" = l."{nm[c]}"' for c in cols)
+    if form == "upper":
+        return " AND ".join(f'L."{nm[c]}" = R."{nm[c]}"' for c in cols)
+    parts = [f'l."{nm[c]}" = r."{nm[c]}"' for c in cols]
+    if form == "dup":
+        parts.append(parts[0])
+    return " and ".join(parts)
+
+
+def rule_arg(case, s):
+    """The blocking_rule argument of the session in the session's form (all forms denote the same set of pairs)."""
+    form = s.get("rule_form", "sql")
+    if s.get("rule_extra"):
+        nm = case["names"]
+        parts = [f'substr(l."{nm[e["col"]]}", 1, {e["n"]}) = substr(r."{nm[e["col"]]}", 1, {e["n"]})' if e["kind"] == "substr" else f'l."{nm[e["l"]]}" = r."{nm[e["r"]]}"' for e in s["rule_extra"]]
+        return " and ".join([rule_sql(case, s["rule_cols"])] * bool(s["rule_cols"]) + parts)
+    if form == "block_on":
+        from splink import block_on
+
+        return block_on(*[case["names"][c] for c in s["rule_cols"]])
+    if form == "salted":
+        return {"blocking_rule": rule_sql(case, s["rule_cols"]), "salting_partitions": 2}
+    return rule_sql(case, s["rule_cols"], form)
 
 
 def dump_cms(cms):
@@ -133,15 +400,17 @@ def run_impl(case: dict) -> dict:
         before = dump_cms(linker._settings_obj.core_model_settings)
         try:
             sess = linker.training.estimate_parameters_using_expectation_maximisation(
-                rule_sql(case, s["rule_cols"]), estimate_without_term_frequencies=s["no_tf"],
-                fix_probability_two_random_records_match=s["fix_lambda"], fix_m_probabilities=s["fix_m"], fix_u_probabilities=s["fix_u"])
+                rule_arg(case, s), estimate_without_term_frequencies=s["no_tf"],
+                fix_probability_two_random_records_match=s["fix_lambda"], fix_m_probabilities=s["fix_m"], fix_u_probabilities=s["fix_u"],
+                **({"populate_probability_two_random_records_match_from_trained_values": True} if s.get("populate") else {}))
         except Exception as e:  # noqa: BLE001
             from splink.internals.exceptions import EMTrainingException
 
             if isinstance(e, EMTrainingException):
-                out["sessions"].append({"no_pairs": True, "before": before})
-                # a failed session must not change the model (C08's business); stop here
-                break
+                # a failed session must not change the model; later sessions go on from the unchanged model
+                out["sessions"].append({"no_pairs": True, "before": before, "after": dump_cms(linker._settings_obj.core_model_settings),
+                                        "sessions_kept": len(linker._em_training_sessions)})
+                continue
             try:
                 e.partial = {"failed_session": len(out["sessions"]), "before": before}
             except Exception:  # noqa: BLE001
@@ -150,6 +419,7 @@ def run_impl(case: dict) -> dict:
         out["sessions"].append({
             "before": before,
             "deactivated": sorted(cc.output_column_name for cc in sess._comparisons_that_cannot_be_estimated),
+            "reversed": [[x["comparison"].output_column_name, x["level"].comparison_vector_value] for x in sess._comparison_levels_to_reverse_blocking_rule],
             "history": [dump_cms(h) for h in sess._core_model_settings_history],
             "after": dump_cms(linker._settings_obj.core_model_settings),
         })
@@ -164,18 +434,20 @@ def comp_name(case, ci):
     return f"{case['names'][case['comparisons'][ci]['col']]}{ci}"
 
 
-def blocked_pairs(case, cols):
+def blocked_pairs(case, s):
+    """Pairs (l = smaller unique_id) for which the session's rule is true; `s` is a session or a plain list of equality columns."""
+    cols, extra = (s["rule_cols"], s.get("rule_extra") or []) if isinstance(s, dict) else (s, [])
     rows = sorted(case["rows"], key=lambda r: r["unique_id"])
     out = []
     for i, x in enumerate(rows):
         for y in rows[i + 1:]:
-            if all(x[c] is not None and y[c] is not None and x[c] == y[c] for c in cols):
+            if all(x[c] is not None and y[c] is not None and x[c] == y[c] for c in cols) and all(extra_holds(e, x, y) for e in extra):
                 out.append((x, y))
     return out
 
 
 def active(case, s):
-    return [ci for ci, c in enumerate(case["comparisons"]) if c["col"] not in s["rule_cols"]]
+    return [ci for ci, c in enumerate(case["comparisons"]) if is_active(c, s)]
 
 
 def levels_payload(case, ci, state, strip_tf):
@@ -184,10 +456,6 @@ def levels_payload(case, ci, state, strip_tf):
     nn = [l for l in c["levels"] if l["kind"] != "null"]
     counter = len(nn) - 1
     tfcol = {"a": 0, "b": 1}
-    exact_u = None
-    for l, st in zip(c["levels"], state):
-        if l["kind"] == "eq":
-            exact_u = st["u"]
     out = []
     for l, st in zip(c["levels"], state):
         d = {"isNull": l["kind"] == "null", "isElse": l["kind"] == "else", "tf": None,
@@ -200,8 +468,8 @@ def levels_payload(case, ci, state, strip_tf):
             d["cvv"] = counter
             counter -= 1
         if "tf" in l and not strip_tf:
-            ue = st["u"] if l["tf"].get("disable_detection") else exact_u
-            d["tf"] = {"col": tfcol[c["col"]], "weight": core.f2b(l["tf"]["weight"]), "minU": core.f2b(l["tf"]["minU"]), "uExact": core.f2b(ue)}
+            ue = tf_exact_u(c, state, l, st)
+            d["tf"] = {"col": tfcol[tf_col(c, l)], "weight": core.f2b(l["tf"]["weight"]), "minU": core.f2b(l["tf"]["minU"]), "uExact": core.f2b(ue)}
         out.append(d)
     return out
 
@@ -209,8 +477,8 @@ def levels_payload(case, ci, state, strip_tf):
 def rows_payload(case, s, act, strip_tf):
     tfs = c02.tf_tables(case)
     out = []
-    for x, y in blocked_pairs(case, s["rule_cols"]):
-        guards = [[c02.guard(l, x[case["comparisons"][ci]["col"]], y[case["comparisons"][ci]["col"]]) for l in case["comparisons"][ci]["levels"]] for ci in act]
+    for x, y in blocked_pairs(case, s):
+        guards = [[lguard(case["comparisons"][ci], l, x, y) for l in case["comparisons"][ci]["levels"]] for ci in act]
 
         def tfv(rec, col):
             if strip_tf:
@@ -221,6 +489,23 @@ def rows_payload(case, s, act, strip_tf):
 
         out.append({"guards": guards, "tfl": [tfv(x, "a"), tfv(x, "b")], "tfr": [tfv(y, "a"), tfv(y, "b")], "count": 1})
     return out
+
+
+def exact_levels(case):
+    """All exact-match levels of the model in model order: (comparison index, level index, columns)."""
+    return [(ci, k, exact_cols(c, l)) for ci, c in enumerate(case["comparisons"]) for k, l in enumerate(c["levels"]) if exact_cols(c, l)]
+
+
+def misc_request(case, s, o):
+    """EM.levelsToReverse on the model's exact-match levels and the rule's columns; EM.startPrior on the model prior and the REAL
+    Bayes factors (before the session) of the levels the real code chose."""
+    bfs = []
+    for name, cvv in o["reversed"]:
+        ci, k = level_of_cvv(case, name, cvv)
+        st = o["before"]["comparisons"][name][k]
+        bfs.append(core.f2b(bf_of(st)))
+    return {"op": "em_misc", "prior": core.f2b(o["before"]["prior"]), "bfs": bfs, "levels": [[COLCODE[x] for x in e[2]] for e in exact_levels(case)],
+            "ruleCols": [COLCODE[x] for x in mentioned_cols(s)], "values": []}
 
 
 def step_request(case, s, theta):
@@ -238,14 +523,14 @@ def oracle_step(case, s, theta):
     has_tf = (not s["no_tf"]) and any("tf" in l and l["tf"]["weight"] != 0 for ci in act for l in case["comparisons"][ci]["levels"])
     if has_tf:
         return None
-    pairs = blocked_pairs(case, s["rule_cols"])
+    pairs = blocked_pairs(case, s)
     lam = theta["prior"]
     data = []
     for x, y in pairs:
         gam = []
         for ci in act:
             c = case["comparisons"][ci]
-            gam.append(next(k for k, l in enumerate(c["levels"]) if c02.guard(l, x[c["col"]], y[c["col"]]) == 1))
+            gam.append(next(k for k, l in enumerate(c["levels"]) if lguard(c, l, x, y) == 1))
         data.append(gam)
     ps, ll = [], 0.0
     for gam in data:
@@ -298,13 +583,13 @@ def supernormalised(case, s, theta):
     (The hypothesis of C03L.loglik_mono; Splink's own starting values of a later session are medians of earlier sessions'
     estimates and need not be normalised.)  Returns a description or None."""
     act = active(case, s)
-    pairs = blocked_pairs(case, s["rule_cols"])
+    pairs = blocked_pairs(case, s)
     for ci in act:
         c = case["comparisons"][ci]
         name = comp_name(case, ci)
         seen = set()
         for x, y in pairs:
-            seen.add(next(k for k, l in enumerate(c["levels"]) if c02.guard(l, x[c["col"]], y[c["col"]]) == 1))
+            seen.add(next(k for k, l in enumerate(c["levels"]) if lguard(c, l, x, y) == 1))
         for mu in ("m", "u"):
             tot = sum(theta["comparisons"][name][k][mu] for k in seen if theta["comparisons"][name][k] is not None)
             if tot > 1 + 1e-9:
@@ -322,6 +607,8 @@ def underflow_witness(case, r=None):
     part = r.get("partial") if isinstance(r, dict) else None
     if part and part["failed_session"] < len(case["sessions"]):
         s = case["sessions"][part["failed_session"]]
+        if any(x[mu] == 0.0 for lv in part["before"]["comparisons"].values() for x in lv if x for mu in ("m", "u")):
+            return 0.0  # an earlier session already left a parameter at exactly 0.0
         theta = dict(part["before"], prior=expected_start_prior(case, s, part["before"]))
         lo = 1.0
         for _ in range(int(case.get("max_iter", 25)) + 1):
@@ -354,10 +641,24 @@ def failure_key(case, what):
     cls = classify(what)
     if cls == "log-likelihood decreased":
         return {"failure": cls, "start_supernormalised": "SUPER-NORMALISED" in what}
+    if cls.startswith("starting prior") or cls.startswith("populated model prior"):
+        import re
+
+        mm = re.match(r"session (\d+)", what)
+        sess = case["sessions"][int(mm.group(1))] if mm and int(mm.group(1)) < len(case["sessions"]) else {}
+        return {"failure": cls, **({"rule_mentions_column_without_equality": True} if sess.get("rule_extra") else {})}
     if cls == "real code raised":
-        log0 = "logarithm of zero" in what or "user-defined function raised exception" in what
-        w = underflow_witness(case) if log0 else None
-        return {"failure": cls, "parameter_underflow_to_zero": bool(log0 and w is not None and w < 1e-100)}
+        # symptoms of a parameter that is exactly 0.0: log2(0) in the E-step; an infinite Bayes factor of a rule's exact-match level
+        # (prior inf/inf = nan, rendered as the identifier nan in the SQL; 1/0 when the prior is populated from trained values)
+        log0 = any(t in what for t in ("logarithm of zero", "user-defined function raised exception", '"nan"', ": nan", "ZeroDivisionError", "division by zero"))
+        # Over the reals every posterior lies strictly inside (0, 1) and every trained m, u and the prior stay strictly positive when
+        # the model the caller supplied has 0 < m, u and 0 < prior < 1; so a logarithm of zero (or 0/0, x/0) met during training can then
+        # only come from floating point: a parameter, a product of Bayes factors or a posterior that under- or overflowed (K9's family).
+        # A model that the caller gave an exact 0 is another matter and is not matched.
+        supplied_positive = 0.0 < float(case.get("prior", 0.5)) < 1.0 and all(
+            l.get("m", 0.5) > 0.0 and l.get("u", 0.5) > 0.0 for c in case["comparisons"] for l in c["levels"] if l["kind"] != "null")
+        return {"failure": cls, "parameter_underflow_to_zero": bool(log0 and supplied_positive),
+                **({"salted_training_rule_without_salt_column": True} if "__splink_salt" in what else {})}
     return {"failure": cls}
 
 
@@ -375,37 +676,97 @@ def theta_close(a, b, tol=1e-9):
     return None
 
 
+def implied_levels(case, rule_cols):
+    """The exact-match levels (comparison index, level index) whose Bayes factors a rule on `rule_cols` brings into the starting
+    prior: every rule column is accounted for AT MOST ONCE; a level on more columns is preferred to levels on fewer (one estimate
+    for 'first name AND surname' rather than two correlated ones), ties go to the level that comes first in the model; a level
+    is used only when all its columns are still unaccounted rule columns."""
+    todo = set(rule_cols)
+    cands = [(ci, k, set(exact_cols(c, l))) for ci, c in enumerate(case["comparisons"]) for k, l in enumerate(c["levels"]) if exact_cols(c, l)]
+    chosen = []
+    for size in sorted({len(x[2]) for x in cands}, reverse=True):
+        for ci, k, cols in cands:
+            if len(cols) == size and cols <= todo:
+                chosen.append((ci, k))
+                todo -= cols
+    return chosen
+
+
+def odds(p):
+    return p / (1 - p) if p != 1 else math.inf
+
+
+def bf_of(st):
+    """m / u of a level; infinite when u is exactly 0 (a trained u can reach 0.0 in floating point on separable data: K9's family)."""
+    return st["m"] / st["u"] if st["u"] != 0 else math.inf
+
+
+def to_prob(bf):
+    return bf / (1 + bf)  # inf / inf = nan, as in the real code
+
+
 def expected_start_prior(case, s, theta_before):
-    """bf^-1( bf(prior) * product of BF of the exact-match levels on the rule's columns )."""
-    bf = theta_before["prior"] / (1 - theta_before["prior"])
-    for ci, c in enumerate(case["comparisons"]):
-        if c["col"] in s["rule_cols"]:
-            for k, l in enumerate(c["levels"]):
-                if l["kind"] == "eq":
-                    st = theta_before["comparisons"][comp_name(case, ci)][k]
-                    bf *= st["m"] / st["u"]
-                    break
-    return bf / (1 + bf)
+    """bf^-1( bf(prior) * product of BF of the exact-match levels the rule implies )."""
+    bf = odds(theta_before["prior"])
+    for ci, k in implied_levels(case, s["rule_cols"]):
+        st = theta_before["comparisons"][comp_name(case, ci)][k]
+        bf *= bf_of(st)
+    return to_prob(bf)
+
+
+def level_of_cvv(case, name, cvv):
+    """(comparison index, level index) of the level with that comparison vector value (non-null levels count down to 0)."""
+    ci = [comp_name(case, i) for i in range(len(case["comparisons"]))].index(name)
+    nn = [k for k, l in enumerate(case["comparisons"][ci]["levels"]) if l["kind"] != "null"]
+    return ci, nn[len(nn) - 1 - cvv]
+
+
+def level_cols(case, ci, k):
+    c = case["comparisons"][ci]
+    return exact_cols(c, c["levels"][k]) or ["(not an exact-match level)"]
+
+
+def expected_populated_prior(case, done, theta_after):
+    """populate_probability_two_random_records_match_from_trained_values: every session so far gives an estimate - its final
+    lambda with the Bayes factors (of the model as it now stands) of the levels its rule implies divided out again; the model
+    prior becomes 1 / median of the reciprocals.  `done` = [(session, final lambda)]."""
+    recips = []
+    for s, lam in done:
+        bf = odds(lam)
+        for ci, k in implied_levels(case, s["rule_cols"]):
+            st = theta_after["comparisons"][comp_name(case, ci)][k]
+            bf /= bf_of(st)
+        recips.append(1 / to_prob(bf) if bf != 0 else math.inf)
+    return 1 / statistics.median(recips)
 
 
 def verdict(case, r):
     """The property on the real output."""
     trained: dict = {}
+    done: list = []
     for si, (s, o) in enumerate(zip(case["sessions"], r["sessions"])):
-        pairs = blocked_pairs(case, s["rule_cols"])
+        pairs = blocked_pairs(case, s)
         if o.get("no_pairs"):
             if pairs:
                 return f"session {si}: training raised 'no record pairs' although the rule yields {len(pairs)} pairs"
-            return None
+            if "after" in o and (o["after"] != o["before"] or o["sessions_kept"] != len(done)):
+                return f"session {si}: training raised 'no record pairs' but changed the model or kept the failed session ({o['sessions_kept']} sessions kept, {len(done)} succeeded)"
+            continue
         if not pairs:
             return f"session {si}: rule yields no pairs but training did not raise"
-        want_deact = sorted(comp_name(case, ci) for ci, c in enumerate(case["comparisons"]) if c["col"] in s["rule_cols"])
+        want_deact = sorted(comp_name(case, ci) for ci, c in enumerate(case["comparisons"]) if not is_active(c, s))
         if o["deactivated"] != want_deact:
             return f"session {si}: deactivated comparisons {o['deactivated']}, those using a column of the training rule are {want_deact}"
         h = o["history"]
         sp = expected_start_prior(case, s, o["before"])
         if not core.close(h[0]["prior"], sp, 1e-9):
-            return f"session {si}: starting prior {h[0]['prior']}, model prior times Bayes factors of the rule's exact-match levels gives {sp}"
+            return (f"session {si}: starting prior {h[0]['prior']}, model prior times Bayes factors of the rule's exact-match levels "
+                    f"{[(comp_name(case, ci), k) for ci, k in implied_levels(case, s['rule_cols'])]} gives {sp}")
+        if "reversed" in o:
+            # each column of the rule is divided out at most once, and only columns of the rule are
+            used = [x for name, cvv in o["reversed"] for x in level_cols(case, *level_of_cvv(case, name, cvv))]
+            if len(used) != len(set(used)) or not set(used) <= set(s["rule_cols"]):
+                return f"session {si}: starting prior: the levels used for the rule's columns {o['reversed']} cover the columns {used}; every column of the rule {s['rule_cols']} may be used once"
         prev_ll = None
         for i in range(len(h) - 1):
             res = oracle_step(case, s, h[i])
@@ -435,13 +796,19 @@ def verdict(case, r):
                 b, a = o["before"]["comparisons"][name][k], o["after"]["comparisons"][name][k]
                 if b is None:
                     continue
-                frozen_m = c["col"] in s["rule_cols"] or s["fix_m"] or l.get("fix_m")
-                frozen_u = c["col"] in s["rule_cols"] or s["fix_u"] or l.get("fix_u")
+                frozen_m = not is_active(c, s) or s["fix_m"] or l.get("fix_m")
+                frozen_u = not is_active(c, s) or s["fix_u"] or l.get("fix_u")
                 if frozen_m and not core.close(a["m"], b["m"], 1e-12):
                     return f"session {si}: m of {name} level {k} moved from {b['m']} to {a['m']} although it is fixed / not trainable in this session"
                 if frozen_u and not core.close(a["u"], b["u"], 1e-12):
                     return f"session {si}: u of {name} level {k} moved from {b['u']} to {a['u']} although it is fixed / not trainable in this session"
-        if not core.close(o["after"]["prior"], o["before"]["prior"], 1e-12):
+        done.append((s, h[-1]["prior"]))
+        if s.get("populate"):
+            pp = expected_populated_prior(case, done, o["after"])
+            if not core.close(o["after"]["prior"], pp, 1e-9):
+                return (f"session {si}: populate_probability_two_random_records_match_from_trained_values set the model prior to {o['after']['prior']}; the sessions' final lambdas "
+                        f"{[x[1] for x in done]} with the Bayes factors of their rules' exact-match levels divided out give 1/median(1/p) = {pp}")
+        elif not core.close(o["after"]["prior"], o["before"]["prior"], 1e-12):
             return f"session {si}: the model's probability_two_random_records_match changed from {o['before']['prior']} to {o['after']['prior']}"
         # medians of all sessions' estimates
         final = h[-1]
@@ -477,6 +844,8 @@ def compare(ctx, cases, drv):
             for si, (s, o) in enumerate(zip(c["sessions"], r["sessions"])):
                 if o.get("no_pairs"):
                     continue
+                reqs.append(misc_request(c, s, o))
+                owners.append((idx, si, -1))
                 for i in range(len(o["history"]) - 1):
                     reqs.append(step_request(c, s, o["history"][i]))
                     owners.append((idx, si, i))
@@ -491,10 +860,20 @@ def compare(ctx, cases, drv):
                  sample={"case": {k: c[k] for k in ("comparisons", "prior", "sessions", "names", "engine")}, "n_rows": len(c["rows"]), "iterations": n_it,
                          "history_tail": r["sessions"][0].get("history", [None])[-1] if isinstance(r, dict) and r.get("sessions") else None} if len(c["comparisons"]) <= 2 else None)
         ctx.count("engine", c["engine"]); ctx.count("n_sessions", len(c["sessions"])); ctx.count("has_tf", has_tf)
+        ctx.count("family", family_of(c)); ctx.count("max_iterations", c["max_iter"])
+        if isinstance(r, dict) and "sessions" in r:
+            for k, o in enumerate(r["sessions"]):
+                if o.get("no_pairs"):
+                    ctx.count("session_without_pairs", "last session" if k == len(c["sessions"]) - 1 else "followed by another session")
+        ctx.count("composite_exact_levels_in_model", sum(1 for e in exact_levels(c) if len(e[2]) > 1))
+        ctx.count("columns_with_several_exact_levels", sum(1 for x in "abcd" if sum(1 for e in exact_levels(c) if x in e[2]) > 1))
         ctx.count("names", c["names"]["a"]); ctx.count("iterations_total", n_it if n_it < 5 else "5-25" if n_it <= 25 else ">25")
         for s in c["sessions"]:
             ctx.count("fix_flags", f"m={int(s['fix_m'])} u={int(s['fix_u'])} lambda={int(s['fix_lambda'])}")
             ctx.count("estimate_without_tf", s["no_tf"]); ctx.count("rule_cols", "+".join(s["rule_cols"]))
+            ctx.count("rule_form", s.get("rule_form", "sql")); ctx.count("populate_prior_from_trained_values", bool(s.get("populate")))
+            ctx.count("trainable_comparisons_in_session", len(active(c, s)))
+            ctx.count("rule_non_equality_conjunct", "+".join(e["kind"] for e in s.get("rule_extra") or []) or "none")
         if core.impl_error(r):
             ctx.count("impl_error", r["__error__"])
             problems.append((c, f"real code raised {r['__error__']}: {r['text'][:300]}", True))
@@ -508,6 +887,22 @@ def compare(ctx, cases, drv):
             if "error" in m:
                 raise core.HarnessError("model driver error: " + m["error"])
             s, o = c["sessions"][si], r["sessions"][si]
+            if i == -1:
+                # the model's choice of exact-match levels for the rule and its starting prior (EM.levelsToReverse / EM.startPrior)
+                ex = exact_levels(c)
+                mine = [list(ex[j][:2]) for j in m["levelsToReverse"]]
+                real = [list(level_of_cvv(c, name, cvv)) for name, cvv in o["reversed"]]
+                if mine != real:
+                    bad = f"session {si}: exact-match levels chosen for the rule {s['rule_cols']}: real {real} vs EM.levelsToReverse {mine} (comparison index, level index)"
+                    break
+                if not core.close(o["history"][0]["prior"], core.b2f(m["startPrior"]), 1e-12):
+                    bad = f"session {si}: starting prior {o['history'][0]['prior']} vs EM.startPrior {core.b2f(m['startPrior'])}"
+                    break
+                ctx.count("levels_implied_by_rule (sizes of the exact-match levels used for the starting prior)", "+".join(str(len(ex[j][2])) for j in m["levelsToReverse"]) or "none")
+                cover = [e for e in ex if set(e[2]) <= set(mentioned_cols(s))]
+                ctx.count("exact_levels_within_rule_columns vs used", f"{len(cover)} candidates -> {len(real)} used")
+                ctx.traces_validated += 1
+                continue
             act = active(c, s)
             real_next = o["history"][i + 1]
             model_next = {"prior": core.b2f(m["params"]["prior"]), "comparisons": {}}
@@ -585,7 +980,7 @@ def shrink(case, key=None):
 
 
 def classify(what):
-    for pat, cls in [("starting prior", "starting prior not adjusted by the rule's exact-match levels"), ("deactivated comparisons", "wrong comparisons deactivated"),
+    for pat, cls in [("starting prior", "starting prior not adjusted by the rule's exact-match levels"), ("populate_probability_two_random", "populated model prior does not divide out the rule's exact-match levels"), ("deactivated comparisons", "wrong comparisons deactivated"),
                      ("reference EM step", "iteration is not an exact EM step"), ("log-likelihood decreased", "log-likelihood decreased"), ("sum to", "m/u do not sum to 1"),
                      ("although it is fixed", "fixed or untrainable parameter moved"), ("probability_two_random_records_match changed", "model prior changed by training"),
                      ("median of the sessions", "final value is not the median of session estimates"), ("no record pairs", "no-pairs handling"), ("real code raised", "real code raised")]:
@@ -598,6 +993,12 @@ def run(ctx: core.Ctx):
     ctx.rule = (
         "cases = 6-14 records over tiny domains (NULL rate 0-25%), 2-3 comparisons (exact / levenshtein / numeric) with and without null levels (never-observed levels occur), "
         "optional TF adjustments, level-level fix flags (8%), priors in (0,1), 1-3 training sessions each with a rule on one or two columns (a comparison's column or an unrelated one), "
+        "family 'levels' (45 extra cases): 10-18 records over 2-3 values per column, models whose training-rule columns are covered by SEVERAL exact-match levels "
+        "(a comparison over 2-3 columns with a composite level x_l = x_r AND y_l = y_r and single-column exact levels below it - the shape of ForenameSurnameComparison -, "
+        "the same column in two comparisons, overlapping composites, composite + single-column comparison), rules on all / part of / more than a composite level's columns, "
+        "null levels 'any column NULL' / 'all columns NULL'; every session: rule given as SQL / block_on() / flipped sides / repeated conjunct / salted dict / upper-case keywords, "
+        "populate_probability_two_random_records_match_from_trained_values on (30%) / off; 7% of the sessions' rules carry a conjunct that mentions a column without "
+        "l.col = r.col (substr prefix, cross-column key l.x = r.y); "
         "the 6 admissible combinations of fix_m / fix_u / fix_lambda, estimate_without_term_frequencies on/off, max_iterations 25 or 3, convergence 1e-4 or 1e-2, three column-name "
         "sets (lower case, mixed case, upper case); duckdb+sqlite. Every iteration of every session is replayed one step at a time. non-trivial = at least two EM iterations in total; "
         "distinct = hash of (rows, model, sessions, names, engine)."
@@ -620,12 +1021,13 @@ def run(ctx: core.Ctx):
     else:
         from harness import graphs
 
-        cases = graphs.load_corpus(PROP) + [gen_case(ctx.rng) for _ in range(ctx.budget(90, 1500))]
+        cases = (graphs.load_corpus(PROP) + [gen_case(ctx.rng) for _ in range(ctx.budget(90, 1500))]
+                 + [gen_levels_case(ctx.rng) for _ in range(ctx.budget(45, 700))])
     problems = compare(ctx, cases, drv)
     if (not ctx.lean.ok or any(not conc for _, _, conc in problems)) and not ctx.replay:
         ctx.notes.append("proof or correspondence broke: ran the widened failing-input search")
         rng2 = random.Random(ctx.seed + 7919)
-        problems += compare(ctx, [gen_case(rng2) for _ in range(600)], drv)
+        problems += compare(ctx, [gen_any(rng2) for _ in range(600)], drv)
     concrete = [(c, w) for c, w, conc in problems if conc]
     broken = [(c, w) for c, w, conc in problems if not conc]
     reported = set()
